@@ -199,7 +199,10 @@ class ComputeFramework(ABC):
 
         # case multiprocessing
         # return data to be used in next step of this framework in this process
-        if len(self.children_if_root) > len(self.already_calculated_children_tracker) + len(features.features):
+        # (the same test as add_already_calculated_children_and_drop_if_possible: after a join this object also runs
+        # steps whose features are not among its children, so counting calculated features is not enough)
+        calculated = self.already_calculated_children_tracker | {feature.uuid for feature in features.features}
+        if not self.children_if_root.issubset(calculated):
             return self.data
 
         # upload finished dataset to flight server
